@@ -307,7 +307,9 @@ def C14(tier, seed):
     variants = [("", {}), (":per_axis_pos", dict(multi_pos=True)), (":3D", dict(shape=(3, 1, 1, 1))),
                 (":scale_given", dict(scale="given")), (":descending_node_order", dict(node_order="reversed")),
                 # first coordinate a Python int on every node (plane index): exported columns of different dtypes
-                (":integer_first_axis", dict(int_first_axis=True))]
+                (":integer_first_axis", dict(int_first_axis=True)),
+                # a registered custom node feature, loaded on import (not recomputed); CSV: display-name headers
+                (":custom_feature", dict(custom=True, display_names=True))]
     runs = []
     for route, h in (("geff", roundtrip.geff_harness), ("csv", roundtrip.csv_harness)):
         for name, extra in variants:
@@ -321,7 +323,8 @@ def C14(tier, seed):
                             f"symbolic; ids 1..{m + 1}), coordinates arbitrary reals; full export, then import with the "
                             f"key mapping that corresponds to what the exporter wrote",
                             fallback_obligations=("C14.reimport_accepted", "C14.same_nodes", "C14.same_edges",
-                                                  "C14.same_times", "C14.same_positions", "C14.same_track_ids")))
+                                                  "C14.same_times", "C14.same_positions", "C14.same_track_ids",
+                                                  "C14.same_loaded_features")))
     INT_OBL = ("C14.reimport_accepted", "C14.same_nodes", "C14.same_edges", "C14.same_times", "C14.same_positions",
                "C14.same_track_ids", "C14.same_lineage_ids", "C14.same_segmentation", "C14.same_scale",
                "C14.same_registry", "C14.same_loaded_features")
@@ -351,9 +354,10 @@ def C14(tier, seed):
         "np.save returns an equal array of the same dtype (float formatting, NaN, pickling outside)",
         "claimed: nodes, edges, times, positions, track ids after GEFF and CSV round trips of tracks without "
         "segmentation; internal format: additionally lineage ids, loaded measurements (area), segmentation cells and "
-        "dtype, scale (symbolic voxel sizes) and the feature registry.  NOT claimed: GEFF segmentation "
-        "round trips (position / mask consistency is needed for the importer's segmentation check), display-name "
-        "CSV headers, subset exports, loaded computed features through GEFF / CSV"],
+        "dtype, scale (symbolic voxel sizes) and the feature registry.  A registered custom node feature is followed through GEFF "
+        "(node_features = load) and through a display-name CSV.  NOT claimed: GEFF segmentation "
+        "round trips (position / mask consistency is needed for the importer's segmentation check), "
+        "subset exports, segmentation-derived features loaded through GEFF / CSV"],
         stubs=EXPORT_STUBS + ["geff read_to_memory / GeffMetadata.read -> ideal store", "pandas DataFrame -> _Frame model"])
 
 
